@@ -24,7 +24,7 @@ package main
 // Everything is resolved by role: the call stack is the VM field the run driver appends a frame literal
 // to; the status field is the field that literal fills with a constant; the statuses to pass over are
 // read from the handlers of the interpreter loop that append a frame and never assign the running
-// function; the recover code is the code that reads vm.panic.message.
+// function (neither directly nor through a function of the package); the recover code is the code that reads vm.panic.message.
 
 import (
 	"go/ast"
@@ -220,6 +220,46 @@ func (x *c12fs) pushedWhileRunning(R string) []*types.Const {
 	var out []*types.Const
 	seen := map[*types.Const]bool{}
 	unknown := ""
+	// functions of the package that assign the running function, directly or through one call
+	setsFn := map[*types.Func]bool{}
+	direct := func(fi *FuncInfo) bool {
+		found := false
+		ast.Inspect(fi.Decl.Body, func(n ast.Node) bool {
+			if as, ok := n.(*ast.AssignStmt); ok {
+				for _, l := range as.Lhs {
+					if c11FieldOf(x.info, l) == x.fFn {
+						found = true
+					}
+				}
+			}
+			return true
+		})
+		return found
+	}
+	var rtf []*FuncInfo
+	for _, fi := range r.P.Funcs(c11RT) {
+		if !r.P.isTestFile(fi.File) && fi.Obj != nil && fi.Obj != a.loop.Obj {
+			rtf = append(rtf, fi)
+			if direct(fi) {
+				setsFn[fi.Obj] = true
+			}
+		}
+	}
+	var second []*types.Func
+	for _, fi := range rtf {
+		if setsFn[fi.Obj] {
+			continue
+		}
+		for _, call := range calls(fi.Decl.Body, false) {
+			if fn := callee(x.info, call); fn != nil && setsFn[fn] {
+				second = append(second, fi.Obj)
+				break
+			}
+		}
+	}
+	for _, fn := range second {
+		setsFn[fn] = true
+	}
 	for _, st := range a.dispatch.Body.List {
 		cc := st.(*ast.CaseClause)
 		var lits []*ast.CompositeLit
@@ -233,6 +273,12 @@ func (x *c12fs) pushedWhileRunning(R string) []*types.Const {
 					if c11FieldOf(x.info, l) == x.fFn {
 						changesFn = true
 					}
+				}
+			}
+			// … or through a function of the package that assigns it (vm.enter(fn, vars))
+			if call, ok := n.(*ast.CallExpr); ok {
+				if fn := callee(x.info, call); fn != nil && setsFn[fn] {
+					changesFn = true
 				}
 			}
 			return true
